@@ -24,6 +24,9 @@ type IndexLoop struct {
 	// index (n - 1), Bound the exclusive upper limit n when the first index has
 	// that form (nil otherwise); the loop ends below index 0.
 	Descending bool
+	// Rotated: the form of `for i := range n` — the loop is entered only when 0 < n, the body comes first and
+	// the test i+1 < n sits in the latch (If is that test; its block is the latch, not the header).
+	Rotated bool
 }
 
 // Full reports whether the loop visits every index of [0, Bound) once:
@@ -35,6 +38,63 @@ func (il *IndexLoop) Full() bool {
 	return il.Start == 0 && il.Step == 1
 }
 
+// asRotatedLoop recognises the form go/ssa gives `for i := range n`: the test
+// `0 < n` in front of the loop, the body first, and `i+1 < n` at the bottom.
+func asRotatedLoop(l *Loop) *IndexLoop {
+	h := l.Header
+	if len(l.Latch) != 1 {
+		return nil
+	}
+	lt := l.Latch[0]
+	if len(lt.Instrs) == 0 {
+		return nil
+	}
+	iff, ok := lt.Instrs[len(lt.Instrs)-1].(*ssa.If)
+	if !ok || len(lt.Succs) != 2 || lt.Succs[0] != h || l.Blocks[lt.Succs[1]] {
+		return nil
+	}
+	cmp, ok := iff.Cond.(*ssa.BinOp)
+	if !ok || cmp.Op != token.LSS {
+		return nil
+	}
+	add, ok := cmp.X.(*ssa.BinOp)
+	if !ok || add.Op != token.ADD {
+		return nil
+	}
+	phi, ok := add.X.(*ssa.Phi)
+	if !ok || phi.Block() != h {
+		return nil
+	}
+	if step, ok := ConstInt(add.Y); !ok || step != 1 {
+		return nil
+	}
+	init, fromLatch, ok := phiInitAndLatch(phi, l)
+	if !ok || fromLatch != ssa.Value(add) {
+		return nil
+	}
+	// entered only when init < bound
+	for _, p := range h.Preds {
+		if l.Blocks[p] {
+			continue
+		}
+		if len(p.Instrs) == 0 {
+			return nil
+		}
+		pre, ok := p.Instrs[len(p.Instrs)-1].(*ssa.If)
+		if !ok || p.Succs[0] != h {
+			return nil
+		}
+		pc, ok := pre.Cond.(*ssa.BinOp)
+		if !ok || pc.Op != token.LSS || pc.Y != cmp.Y {
+			return nil
+		}
+		if k, isc := ConstInt(pc.X); !isc || k != init {
+			return nil
+		}
+	}
+	return &IndexLoop{Loop: l, If: iff, Bound: cmp.Y, Phi: phi, Index: phi, Start: init, Step: 1, Rotated: true}
+}
+
 // AsIndexLoop recognises l as an index loop, or returns nil.
 func AsIndexLoop(l *Loop) *IndexLoop {
 	h := l.Header
@@ -43,11 +103,14 @@ func AsIndexLoop(l *Loop) *IndexLoop {
 	}
 	iff, ok := h.Instrs[len(h.Instrs)-1].(*ssa.If)
 	if !ok {
-		return nil
+		return asRotatedLoop(l)
 	}
 	cmp, ok := iff.Cond.(*ssa.BinOp)
 	if !ok {
-		return nil
+		return asRotatedLoop(l)
+	}
+	if il := asRotatedLoop(l); il != nil {
+		return il
 	}
 	if !l.Blocks[h.Succs[0]] || l.Blocks[h.Succs[1]] {
 		return nil
@@ -173,7 +236,7 @@ func (il *IndexLoop) CoversAll(action ssa.Instruction, okExit func(*ssa.BasicBlo
 			if l.Blocks[s] {
 				continue
 			}
-			if b == l.Header && s == l.Header.Succs[1] {
+			if b == il.If.Block() && s == il.If.Block().Succs[1] {
 				continue
 			}
 			if okExit == nil || !okExit(s) {
